@@ -128,34 +128,62 @@ Proof.
   unfold GenOperators.body_mod, GenOperators.catch_zde, GenOperators.py_mod.
   destruct (Z.eqb b 0); simpl; discriminate.
 Qed.
-Lemma lshift_no_crash a b s : GenOperators.body_lshift a b <> Crash s.
+(* shifts (fix a3755b4): times_power_of_two refuses a count beyond MAX_SHIFT with MemoryError, which the wrapper of
+   compile_and_link_files (fix 291322a) turns into the reported error 'too-complex'.  That refusal is the ONLY Crash an
+   operator body can return; within the bound nothing crashes. *)
+Lemma tpt_crash a b s : 0 <= b -> GenOperators.fn_times_power_of_two a b = Crash s ->
+  s = "MemoryError"%string /\ GenOperators.MAX_SHIFT < b.
 Proof.
-  unfold GenOperators.body_lshift, GenOperators.py_pow, GenOperators.py_rshift.
+  intros Hb. unfold GenOperators.fn_times_power_of_two, GenOperators.py_lshift.
+  destruct (Z.gtb b GenOperators.MAX_SHIFT) eqn:E.
+  - intros H; inversion H. split; [reflexivity|]. rewrite Z.gtb_ltb in E. apply Z.ltb_lt in E. exact E.
+  - assert (Z.ltb b 0 = false) as -> by (apply Z.ltb_ge; exact Hb). simpl. discriminate.
+Qed.
+Lemma tpt_ok a b : 0 <= b <= GenOperators.MAX_SHIFT -> exists z, GenOperators.fn_times_power_of_two a b = Ok z.
+Proof.
+  intros [H1 H2]. unfold GenOperators.fn_times_power_of_two, GenOperators.py_lshift.
+  assert (Z.gtb b GenOperators.MAX_SHIFT = false) as -> by (rewrite Z.gtb_ltb; apply Z.ltb_ge; exact H2).
+  assert (Z.ltb b 0 = false) as -> by (apply Z.ltb_ge; exact H1). simpl. eauto.
+Qed.
+
+Lemma lshift_crash a b s : GenOperators.body_lshift a b = Crash s -> s = "MemoryError"%string /\ GenOperators.MAX_SHIFT < b.
+Proof.
+  unfold GenOperators.body_lshift, GenOperators.reported_then, GenOperators.py_rshift.
   destruct (Z.geb b 0) eqn:E.
-  - assert (Z.ltb b 0 = false) as -> by (apply Z.ltb_ge; apply Z.geb_le in E; lia). simpl. discriminate.
+  - apply Z.geb_le in E.
+    destruct (GenOperators.fn_times_power_of_two a b) as [z|ids|e|] eqn:T; simpl; try discriminate.
+    intros H; inversion H; subst. eapply tpt_crash; eauto.
   - assert (Z.ltb (Z.opp b) 0 = false) as ->.
     { apply Z.ltb_ge. rewrite Z.geb_leb in E. apply Z.leb_gt in E. lia. }
     simpl. discriminate.
 Qed.
+Lemma lsh_crash a b s : GenOperators.body_lsh a b = Crash s -> s = "MemoryError"%string /\ GenOperators.MAX_SHIFT < b.
+Proof.
+  unfold GenOperators.body_lsh, GenOperators.py_rshift.
+  destruct (Z.geb b 0) eqn:E.
+  - apply Z.geb_le in E.
+    destruct (GenOperators.fn_times_power_of_two a b) as [z|ids|e|] eqn:T; simpl; try discriminate.
+    intros H; inversion H; subst. eapply tpt_crash; eauto.
+  - assert (Z.ltb (Z.opp b) 0 = false) as ->.
+    { apply Z.ltb_ge. rewrite Z.geb_leb in E. apply Z.leb_gt in E. lia. }
+    simpl. discriminate.
+Qed.
+(* '>>' with a negative count reports arithmetic-error first; a refusal after that stays a reported error *)
 Lemma rshift_no_crash a b s : GenOperators.body_rshift a b <> Crash s.
 Proof.
-  unfold GenOperators.body_rshift, GenOperators.py_pow, GenOperators.py_rshift, GenOperators.py_assert.
+  unfold GenOperators.body_rshift, GenOperators.py_rshift, GenOperators.py_assert, GenOperators.reported_then.
   destruct (Z.eqb b 0) eqn:E0; [discriminate|].
   destruct (Z.gtb b 0) eqn:E1.
   - assert (Z.ltb b 0 = false) as -> by (apply Z.ltb_ge; rewrite Z.gtb_ltb in E1; apply Z.ltb_lt in E1; lia). simpl. discriminate.
   - assert (Hb : b < 0).
     { rewrite Z.gtb_ltb in E1. apply Z.ltb_ge in E1. apply Z.eqb_neq in E0. lia. }
     assert (Z.ltb b 0 = true) as -> by (apply Z.ltb_lt; exact Hb).
-    assert (Z.ltb (Z.opp b) 0 = false) as -> by (apply Z.ltb_ge; lia). simpl. discriminate.
+    destruct (GenOperators.fn_times_power_of_two a (Z.opp b)) as [z|ids|e|]; simpl; discriminate.
 Qed.
-Lemma lsh_no_crash a b s : GenOperators.body_lsh a b <> Crash s.
+Lemma shifts_within_bound_no_crash a b s : b <= GenOperators.MAX_SHIFT ->
+  GenOperators.body_lshift a b <> Crash s /\ GenOperators.body_lsh a b <> Crash s.
 Proof.
-  unfold GenOperators.body_lsh, GenOperators.py_lshift, GenOperators.py_rshift.
-  destruct (Z.geb b 0) eqn:E.
-  - assert (Z.ltb b 0 = false) as -> by (apply Z.ltb_ge; apply Z.geb_le in E; lia). simpl. discriminate.
-  - assert (Z.ltb (Z.opp b) 0 = false) as ->.
-    { apply Z.ltb_ge. rewrite Z.geb_leb in E. apply Z.leb_gt in E. lia. }
-    simpl. discriminate.
+  intros Hb. split; intros H; [apply lshift_crash in H|apply lsh_crash in H]; destruct H as [_ H]; lia.
 Qed.
 
 (* ------------------------------------------------------------------ chr *)
